@@ -290,6 +290,11 @@ func c17RunChunk(c *core.Ctx, sc *impl.Scratch, tiny, fc, foi string, cases []*c
 				if !tOK {
 					sig, what := c01Classify(cs, tr)
 					sig = strings.Replace(sig, "C01:", "C17:tinyfo:", 1)
+					if tr.Status == "go-build" && strings.Contains(tr.Detail, "undefined: T") && strings.Contains(cs.src, "slice.Map (frt.Sprintf1 ") {
+						// the recorded finding: tinyfo leaves the type parameter of a partially applied generic package_info
+						// function unresolved in the closure it emits
+						sig = "C17:tinyfo:partial-application-of-generic-package-function"
+					}
 					c.Outcome(sig)
 					c.Violation(sig, fmt.Sprintf("tinyfo's translation: %s (fc's translation: %s %q)\nprogram:\n%s", what, fr.Status, fr.Stdout, cs.src),
 						map[string]any{"choices": cs.choices, "program": cs.src, "expected": cs.want, "observed": tr.Status + ": " + tr.Stdout + " " + trunc(tr.Detail, 1200), "fc_output": fr.Stdout})
